@@ -673,7 +673,12 @@ func denoteObject(s *gen.Shape, raw any, env *gen.Env, depth int, shorthand map[
 		fromDefault := false
 		if !has && p.Default != nil {
 			var dv any
-			if err := json.Unmarshal([]byte(*p.Default), &dv); err != nil {
+			err := json.Unmarshal([]byte(*p.Default), &dv)
+			if err != nil && p.T.Kind == gen.KString {
+				// the default of a string property may be written bare (without the JSON quotes)
+				err = json.Unmarshal([]byte("\""+*p.Default+"\""), &dv)
+			}
+			if err != nil {
 				return unsp("default of %s is not JSON", p.Name)
 			}
 			val, has, fromDefault = dv, true, true
